@@ -12,14 +12,29 @@ beyond the advertised window.  In the other direction, executions recorded
 from naturally scheduled sessions (writer / reader tasks, self-pausing
 sessions, random segmentation and stalls) are validated by TLC against the
 same spec (specs/Channel/ChannelTrace.tla), every invariant evaluated in
-every recorded state, with binding controls."""
+every recorded state, with binding controls.  Both directions at once:
+behaviours of specs/Lifecycle with a window of 2 chunks per direction (data,
+EOF and CLOSE queued behind an exhausted window, WINDOW_ADJUST delivered in
+every receive state) are replayed into a real pair (HonestNoError,
+AllDelivered)."""
 
 from checks import chan_common as cc
 from harness.framework import run_check
 
 
+DUPLEX = ('HonestNoError', 'AllDelivered')
+
+
 def main(ctx):
     quick = ctx.tier == 'quick'
+    if ctx.replay_path:
+        import json
+        rp = json.load(open(ctx.replay_path))
+        if rp['replay'].get('kind') == 'duplex':
+            return cc.duplex_replay(ctx, rp['replay'], rp['signature'],
+                                    DUPLEX)
+        raise SystemExit('this replay kind needs the model states; run the '
+                         'check itself')
     # ---- design check ----
     cc.mc(ctx, 'c08_mc1', {}, cc.C08_INVS)
     cc.mc(ctx, 'c08_rogue', dict(Rogue=2, MaxPause=1, DTs='{0}'),
@@ -56,6 +71,10 @@ def main(ctx):
     ]
     cc.replay_all(ctx, 'C08', 'c08', sims, ctx.seed + 11)
 
+    # ---- both directions at once (Lifecycle with windows): a WINDOW_ADJUST is
+    # about the receiver's OWN sending direction and legal in every receive
+    # state; as long as the reader reads, everything written arrives ----
+    cc.duplex_flow(ctx, 'C08', quick, DUPLEX, ctx.seed + 23)
     # ---- code -> spec: recorded natural executions validated by TLC ----
     cc.trace_validation(ctx, 'C08', quick)
     # ---- raw peer: extreme values, peer ignoring the window ----
